@@ -189,6 +189,19 @@ class Cache:
             self._files[filename] = None
             self._norm_cased_files[norm_cased_filename] = None
 
+    def abort_building_file(self, filename):
+        """Record that we are not going to build the specified file after all.
+
+        This undoes a call to ``start_building_file``, in case there is
+        an error before we call the function that builds the file.
+
+        Arguments:
+            filename (str): The non-norm-cased filename.
+        """
+        with self._files_lock:
+            self._files.pop(filename, None)
+            self._norm_cased_files.pop(os.path.normcase(filename), None)
+
     def finish_building_file(self, operation):
         """Record the result of building the specified file.
 
